@@ -550,6 +550,23 @@ end
 /-- `EntNode::unmarkAll()`: every node of the request list back to NOMARK -/
 def unmarkEnts (es : Ents) : Ents := es.map (fun e => { e with mark := .no })
 
+/-- `ComplexList::matches` on the shared hierarchy in the state `h0` earlier calls left it in (`matchesList` is the case
+`h0 = fresh head`: the state after construction) -/
+def matchesAt (fuel : Nat) (combo : Bool) (head : Tree) (h0 : ST) (es : Ents) : Outcome Bool :=
+  match buildList head with
+  | none => .crash .badHead
+  | some list =>
+    if !containsWalk list (es.map (·.name)) then .ok false
+    else do
+      let (h1, es1, r1) ← matchNonORs fuel h0 es
+      if r1 = .all then pure true
+      else if r1 ≠ .unknown then pure false
+      else do
+        let (h2, es2, r2) ← matchORs fuel h1 es1
+        if r2 = .all && hitMultNodes combo h2 es2 then pure true
+        else if MT.rank .some_ ≤ r2.rank then retry fuel combo h2 es2
+        else pure false
+
 /-- `ComplexList::toplevel`: is `name` one of the supertypes (positions 0, 2, 4, …) already joined? -/
 def toplevel : List Tree → Name → Outcome Bool
   | [], _ => .ok false
